@@ -1,7 +1,7 @@
 (* C15 — Currency arithmetic is exact 128-bit arithmetic with faithful overflow reporting.
    Statements only; every theorem is closed by [exact] of a lemma proved elsewhere. *)
 From Coq Require Import ZArith.
-From Sia Require Import Prim.Result Currency.Model Currency.Proofs.
+From Sia Require Import Prim.Result Currency.Model Currency.Proofs Currency.Div.
 Open Scope Z_scope.
 
 Theorem C15_add : forall a b, wfc a -> wfc b ->
@@ -78,3 +78,18 @@ Example C15_nonvacuous :
   snd (mul_wo (mkCur 0 (2^63)) (mkCur 2 0)) = true /\
   snd (mul_wo (mkCur (2^64-1) 0) (mkCur (2^64-1) 0)) = false.
 Proof. unfold wfc; cbn [lo hi]. repeat split; try reflexivity; try (vm_compute; congruence). Qed.
+
+(* Div / quoRem by a 128-bit divisor (the trial-quotient algorithm for divisors above 64 bits included): exact quotient
+   and remainder for every dividend and every non-zero divisor, no primitive panics; division by zero panics *)
+Theorem C15_quorem : forall c v, wfc c -> wfc v -> val v <> 0 ->
+  exists q r, quorem c v = Ok (q, r) /\ wfc q /\ wfc r /\ val q = val c / val v /\ val r = val c mod val v.
+Proof. exact quorem_exact. Qed.
+Print Assumptions C15_quorem.
+
+Theorem C15_quorem_zero : forall c v, val v = 0 -> wfc v -> quorem c v = Panic PDivZero.
+Proof. exact quorem_zero. Qed.
+Print Assumptions C15_quorem_zero.
+
+Theorem C15_div : forall c v, wfc c -> wfc v -> val v <> 0 -> exists q, div c v = Ok q /\ wfc q /\ val q = val c / val v.
+Proof. exact div_exact. Qed.
+Print Assumptions C15_div.
